@@ -58,6 +58,9 @@ func (m *Mutex) Unlock() {
 // RWMutex wraps a real sync.RWMutex.
 type RWMutex struct {
 	mu sync.RWMutex
+	// writers counts Lock calls that are waiting: as with the real RWMutex, a blocked Lock keeps new
+	// readers out (which is what makes re-entering RLock a deadlock when a writer arrives in between).
+	writers atomic.Int32
 }
 
 func (m *RWMutex) Lock() {
@@ -67,9 +70,11 @@ func (m *RWMutex) Lock() {
 	}
 	addr := uintptr(unsafe.Pointer(m))
 	simcore.Yield(simcore.KLock, addr)
+	m.writers.Add(1)
 	for !m.mu.TryLock() {
 		simcore.Block(addr)
 	}
+	m.writers.Add(-1)
 }
 
 func (m *RWMutex) Unlock() {
@@ -86,7 +91,7 @@ func (m *RWMutex) RLock() {
 	}
 	addr := uintptr(unsafe.Pointer(m))
 	simcore.Yield(simcore.KLock, addr)
-	for !m.mu.TryRLock() {
+	for m.writers.Load() > 0 || !m.mu.TryRLock() {
 		simcore.Block(addr)
 	}
 }
